@@ -614,7 +614,8 @@ class C14(Prop):
           'Cycle; `where` filters of a closed family on Uniform / Swap; step-driven scalars (STEP, + - * // %) in '
           'the integer parameters, in `with_prob` and `KPoint.k`, incl. scalars.StepWise; `where.Any(k)`, k in 0-9, for '
           'the permutation recombinators; each case run at a step 0-9, schedule cases also after a warm-up at the '
-          'earlier steps. Non-trivial: the expression returns '
+          'earlier steps; nested populations (grouping lambda, `.for_each(op)`, `.for_each(lambda)`, `.flatten(max_level)`); '
+          'populations with several individuals sharing a DNA value. Non-trivial: the expression returns '
           'normally, the population is non-empty and at least one primitive of the expression made a PRNG '
           'draw or produced a new DNA; distinct: by (spec, population, expression, seed).')
   trusted_base = [
